@@ -37,6 +37,9 @@ DEFS_A = {
     "Color": {"type": "string", "enum": ["red", "green", "blue-ish"]},
     "Pt": {"type": "object", "properties": {"x": {"type": "integer"}, "y": {"type": "integer", "default": 7},
                                             "la-bel": {"type": "string"}}, "required": ["x"]},
+    "Pc": {"type": "object", "properties": {"x": {"type": "integer"},
+                                            "c": {"allOf": [{"$ref": "#/definitions/Color"}], "default": "green"}},
+           "required": ["x"]},
     "Closed": {"type": "object", "properties": {"a": {"type": "string"}}, "additionalProperties": False},
     "WithExtra": {"type": "object", "properties": {"k": {"type": "integer"}}, "required": ["k"],
                   "additionalProperties": {"type": "string"}},
@@ -594,6 +597,7 @@ KINDS = {
     "struct_nested": (R("Outer"), [{"pt": {"x": 1}}, {"pt": {"x": 1, "y": 3}, "tags": ["a"], "c": "red"}],
                       [{"pt": {}}, {"pt": {"x": 1}, "c": "purple"}]),
     "struct_reqonly": (R("Inner"), [{"n": 1, "flag": False}, {"n": -5}], [{"n": 300}, {"flag": True}]),
+    "struct_member_enum_default": (R("Pc"), [{"x": 1, "c": "red"}, {"x": 1}], [{}, {"x": 1, "c": "purple"}]),
     "boxed": (R("Node"), [{"v": 1}, {"v": 1, "next": {"v": 2}}], [{"v": 1, "next": {}}, {"next": {"v": 2}}]),
     "enum_ext": (R("Ext"), ["Unit", {"One": 1}, {"Two": [1, "t"]}, {"Rec": {"p": 1}}, {"Rec": {"p": 1, "q": "s"}}],
                  ["Nope", {"One": "s"}, {"Two": [1]}, {"Rec": {}}, {"Unit": None}, "One"]),
@@ -948,7 +952,7 @@ def run_k5(ctx, cases, name=None):
 
 
 # ------------------------------------------------------------------ classification of violations
-FLAG_NAMES = ["unit", "tuple1", "intoob", "nz0", "flit", "native", "fill", "emptyctor", "tuple1var"]
+FLAG_NAMES = ["unit", "tuple1", "intoob", "nz0", "flit", "native", "fill", "emptyctor", "tuple1var", "f12"]
 
 
 def default_site(rec, gen):
@@ -1028,9 +1032,14 @@ def classify(rec, gen, flags):
         if m["pos"] == "ref" and tgt.get("type") == "integer" and ("minimum" in tgt or "maximum" in tgt) \
                 and isinstance(site[1], int):
             return "C06-F11"
-    if fl["fill"] and kinds == {"different-value"} and rec["valid"] and \
-            all(v.get("note") for v in rec["viol"]):
-        return "C06-F12"
+    # F12 (Coq class Known_F12: a member with its own default is absent and rendered `Default::default()`): the realised
+    # value differs from what serde fills in, or -- when the member's type has no Default impl -- rustc rejects (E0277)
+    if fl["f12"] and rec["valid"]:
+        if kinds == {"different-value"} and all(v.get("note") for v in rec["viol"]):
+            return "C06-F12"
+        if kinds <= {"uncompilable", "builder-chunk-uncompilable"} and \
+                all(e[0] == "E0277" for v in rec["viol"] for e in v.get("errors", [])):
+            return "C06-F12"
     return None
 
 
@@ -1067,6 +1076,7 @@ THEOREMS = [
     "C06_unit_null_optional",
     "C06_default_typed_partial",
     "C06_tuple1_variant_example",
+    "C06_nested_default_fill_refuted",
     "C06_default_exact_partial",
     "C06_regression_examples",
 ]
